@@ -117,10 +117,14 @@ def index_to_loc(body: str, position: int) -> Tuple[int, int]:
     for offset, char in enumerate(body):
         if offset == position:
             return (lines + 1, cols + 1)
-        elif char == "\n":
+        elif char == "\r" or (
+            # \r\n counts as a single line terminator
+            char == "\n"
+            and (offset == 0 or body[offset - 1] != "\r")
+        ):
             lines += 1
             cols = 0
-        else:
+        elif char != "\n":
             cols += 1
     return (lines + 1, cols + 1)
 
